@@ -99,7 +99,7 @@ def item_eq(x, y):
 
 
 def minted_res(c):
-    return SObj(None, kind="Resolved", call_state=SOpaque(M_CS(c.t), "PyObj"), output_schema=SOpaque(M_OUT(c.t), "PyObj"), input_schema=SOpaque(M_IN(c.t), "PyObj"), stream_id=SStr(M_SID(c.t)))
+    return SObj(None, kind="Resolved", call_state=SOpaque(M_CS(c.t), "PyObj"), output_schema=SOpaque(M_OUT(c.t), "PyObj"), input_schema=SOpaque(M_IN(c.t), "PyObj"), stream_id=SStr(M_SID(c.t)), method_name=None)  # entries of the one method under study
 
 
 def entry_ok(item, ttl, expires):
@@ -151,6 +151,9 @@ def install_created_at(S):
         return tab[id(r)]
 
     S.handlers["Resolved.created_at@get"] = get_created_at
+    # `_ResolvedCall.method_name` (trees that record the minting method): C14 studies one method throughout (the drivers pass
+    # no method), so records read back from the cache are entries of that method; cross-method presentation is C13's
+    S.handlers["Resolved.method_name@get"] = lambda S, r: None
 
 
 # ------------------------------------------------------------------------------------------
@@ -435,7 +438,7 @@ class Request:
     def install(self):
         S, H = self.S, self.S.handlers
         H["_compute_aad"] = lambda S, auth: SObj(None, kind="AAD", who=auth.fields["who"], kind_="cursor")
-        H["_compute_call_aad"] = lambda S, auth: SObj(None, kind="AAD", who=auth.fields["who"], kind_="call")
+        H["_compute_call_aad"] = lambda S, auth, method_name=None: SObj(None, kind="AAD", who=auth.fields["who"], kind_="call")  # one method throughout (cross-method: C13)
         H[_time.time] = lambda S: self.now
 
         def open_cursor(S, token, key, aad, ttl=0):
@@ -477,9 +480,9 @@ class Request:
         H["TypeMap.get"] = lambda S, m, name, default=None: SObj(None, kind="CallStateCls")  # same method: the type is declared
         H["CallStateCls.deserialize_from_bytes"] = lambda S, cls, data, validation=None: SOpaque(M_CS(self.ct.t), "PyObj")
 
-        def resolved_call(S, call_state, output_schema, input_schema, stream_id, created_at=None):
+        def resolved_call(S, call_state, output_schema, input_schema, stream_id, created_at=None, method_name=None):
             cs = SOpaque(NONE_CS, "PyObj") if call_state is None else call_state
-            r = SObj(None, kind="Resolved", call_state=cs, output_schema=output_schema, input_schema=input_schema, stream_id=stream_id)
+            r = SObj(None, kind="Resolved", call_state=cs, output_schema=output_schema, input_schema=input_schema, stream_id=stream_id, method_name=method_name)
             S.ghost.setdefault("created_at_of", {})[id(r)] = created_at
             S.ghost.setdefault("keepalive", []).append(r)
             return r
@@ -710,7 +713,7 @@ def warmup(S):
     H[type] = lambda S, o: SObj(None, kind="TypeObj", __name__="CallStateType")
     c = S.opaque("call_id", "CallId")
     H[os.urandom] = lambda S, n: c
-    H["_compute_call_aad"] = lambda S, a: SObj(None, kind="AAD", who=a.fields["who"])
+    H["_compute_call_aad"] = lambda S, a, method_name=None: SObj(None, kind="AAD", who=a.fields["who"])
     minted = {}
 
     def seal_call_token(S, csb, cs_type, outb, inb, call_id, stream_id, key, aad, created_at):
@@ -722,9 +725,9 @@ def warmup(S):
     H["_seal_call_token"] = seal_call_token
     S.inline.update({"_mint_call_token", "_CallStateCache.put"})
 
-    def resolved_call(S, call_state, output_schema, input_schema, stream_id, created_at=None):
+    def resolved_call(S, call_state, output_schema, input_schema, stream_id, created_at=None, method_name=None):
         cs = SOpaque(NONE_CS, "PyObj") if call_state is None else call_state
-        r = SObj(None, kind="Resolved", call_state=cs, output_schema=output_schema, input_schema=input_schema, stream_id=stream_id)
+        r = SObj(None, kind="Resolved", call_state=cs, output_schema=output_schema, input_schema=input_schema, stream_id=stream_id, method_name=method_name)
         S.ghost.setdefault("created_at_of", {})[id(r)] = created_at
         S.ghost.setdefault("keepalive", []).append(r)
         return r
